@@ -1744,3 +1744,21 @@ V("c20-uniform-max-of-empty", "C20", "fire", NO, _NO_UNI, "    def draw(n):\n   
   rule="SIZE.accepts", what="x.max() of an empty array raises: n = 0 is no longer served")
 V("c20-uniform-max-guarded", "C20", "undecided", NO, _NO_UNI, "    def draw(n):\n        x = np.random.uniform(lo, hi, n)\n        if n > 0 and x.max() >= hi:\n            x[x >= hi] = np.nextafter(hi, lo)\n        return x\n    return draw",
   what="the same clamp behind a size test: harmless (whether the clamp keeps the law is not read)")
+
+# ------------------------------------------------------------------------------- round 11 inspired (C09 / C10: rule_4 as a loop over k)
+_R4_OLD = """    Ks = pa_j & n_i
+    if len(Ks) > 0:
+        Hs = n_i & set(reduce(lambda acc, k: acc | pa(k, A), Ks, set()))
+        if len(Hs) > 0:
+            # Check that h and j are not adjacent
+            adj_j = adj(j, A)
+            for h in Hs:
+                if h not in adj_j:
+                    return True
+    return False
+"""
+for _pid in ("C09", "C10"):
+    V("%s-rule4-first-k-decides" % _pid.lower(), _pid, "fire", UT, _R4_OLD, "    adj_j = adj(j, A)\n    for k in pa_j & n_i:\n        Hs = n_i & pa(k, A)\n        if len(Hs) > 0:\n            return not Hs <= adj_j\n    return False\n",
+      rule="RULES.rule_4", what="the first k with any candidate h answers for all k")
+    V("%s-rule4-loop-over-k" % _pid.lower(), _pid, "undecided", UT, _R4_OLD, "    adj_j = adj(j, A)\n    for k in pa_j & n_i:\n        Hs = n_i & pa(k, A)\n        if not Hs <= adj_j:\n            return True\n    return False\n",
+      what="the same rule as a loop over k with a set test per k: correct, another form")
